@@ -14,7 +14,7 @@ import re
 import vlib
 
 PROPS = ["C05"]
-ALSO = ["C01", "C02", "C03"]      # contributed coverage for the tombstone lattices (merged by the driver)
+ALSO = ["C01", "C02", "C03", "C04"]      # contributed coverage for the tombstone lattices (merged by the driver)
 ENGINE = "spec/Tombstone: monitor + transcription of the set/map tombstone merges (TLC exhaustive over replica histories), all short histories and all merge pairs replayed into the real lattices on 3 backends, trace validation of seeded random histories"
 MANIFEST = {
     "C05": {
@@ -136,6 +136,8 @@ def _report_also(extra, also, events, origin):
         evs = by_case.get(cid, [])
         variant = evs[0].get("variant") if evs else "?"
         last = evs[-1] if evs else {}
+        if last.get("e") == "nlaw":
+            variant = "nested-" + last["ty"]
         inp = {k: last[k] for k in ("a", "b", "c") if k in last} or [{k: v for k, v in e.items() if k != "obs"} for e in evs[1:]]
         extra[pid].violation("tombstone/%s/%s" % (variant, rule),
                              "%s wrong on the %s tombstone lattice in %s case %s: input %s observed %s"
@@ -154,6 +156,15 @@ def _count_also(extra, events):
         if n_ord:
             extra["C03"].traces += 1
             extra["C03"].evaluations += 4 * n_ord * len(c[1]["obs"])
+        n_from, n_nlaw = ops.count("from"), ops.count("nlaw")
+        if n_from:
+            extra["C04"].traces += 1
+            extra["C04"].evaluations += n_from * len(c[1]["obs"])
+        if n_nlaw:
+            extra["C04"].traces += 1
+            extra["C04"].evaluations += 5 * n_nlaw * len(c[1]["obs"])
+            extra["C01"].traces += 1
+            extra["C01"].evaluations += 3 * n_nlaw * len(c[1]["obs"])
         if n_ord or n_merge:
             extra["C02"].traces += 1
             extra["C02"].evaluations += (n_ord + n_merge) * len(c[1]["obs"])
@@ -291,10 +302,18 @@ def run(tier):
     lcase = next(c for c in _split_cases(events) if len(c) > 1 and c[1]["e"] == "law")
     badl = json.loads(json.dumps(lcase))
     badl[1]["obs"][0]["eqc"] = 0
-    _validate(badm + bado + badl, d, "canary_also", chunks=1)
+    fcase = next(c for c in _split_cases(events) if len(c) > 1 and c[1]["e"] == "from" and c[1]["a"]["live"] and not c[1]["a"]["tomb"])
+    badf = json.loads(json.dumps(fcase))
+    o = badf[1]["obs"][1]["out"]
+    o["live"], o["tomb"] = [], sorted({p[0] for p in o["live"]})        # the two parts swapped
+    ncase = next(c for c in _split_cases(events) if len(c) > 1 and c[1]["e"] == "nlaw" and c[1]["b"] and not c[1]["a"])
+    badn = json.loads(json.dumps(ncase))
+    badn[1]["obs"][0]["ab"] = []
+    _validate(badm + bado + badl + badf + badn, d, "canary_also", chunks=1)
     got = {(v[1], v[2]) for v in _validate.also}
-    if not {("C02", "changed-flag"), ("C03", "partial_cmp"), ("C01", "commutativity")} <= got:
-        raise vlib.ToolError("canary (flipped merge flag / wrong partial_cmp / failed == of a|b, b|a) NOT flagged: %s" % sorted(got))
+    if not {("C02", "changed-flag"), ("C03", "partial_cmp"), ("C01", "commutativity"), ("C04", "lattice_from"),
+            ("C04", "merge-not-join")} <= got:
+        raise vlib.ToolError("canary (flipped merge flag / wrong partial_cmp / failed == / swapped lattice_from / wrong nested merge) NOT flagged: %s" % sorted(got))
     for p in ALSO:
         extra[p].extra["canary_tombstone"] = "flipped merge flag, wrong partial_cmp and failed commutativity == flagged: %s" % sorted(got)
     res.extra["backends"] = ["hash (HashSet<u64>)", "roaring (RoaringTombstoneSet, u64)", "fst (FstTombstoneSet<String>)"]
@@ -305,11 +324,17 @@ def run(tier):
     res.assumptions = ["insert / delete are realised as merges of singleton / tombstone-only values (as the lattices intend)",
                        "map values are SetUnion<HashSet<u8>>; a key's value is identified with its set of <<key, value>> pairs",
                        "replica-to-replica merge passes a clone of the source replica of the same concrete type"]
-    nt = {"C01": set(), "C02": set(), "C03": set()}
+    nt = {"C01": set(), "C02": set(), "C03": set(), "C04": set()}
     for c in _split_cases(events) + rcases:
         for e in c[1:]:
             if e["e"] == "law" and e["a"] != e["b"] and (e["a"]["tomb"] or e["b"]["tomb"]):
                 nt["C01"].add(json.dumps([c[0]["variant"], e["a"], e["b"], e["c"]], sort_keys=True))
+            if e["e"] == "from" and e["a"]["live"] != e["a"]["tomb"]:
+                nt["C04"].add(json.dumps([c[0]["variant"], e["a"]], sort_keys=True))
+            if e["e"] == "nlaw" and e["a"] != e["b"] and e["b"]:
+                sig = json.dumps([e["ty"], e["a"], e["b"], e["c"]], sort_keys=True)
+                nt["C04"].add(sig)
+                nt["C01"].add(sig)
             if e["e"] == "ord" and e["a"] != e["b"] and (e["a"]["tomb"] or e["b"]["tomb"]):
                 nt["C03"].add(json.dumps([c[0]["variant"], e["a"], e["b"]], sort_keys=True))
                 nt["C02"].add(json.dumps([c[0]["variant"], e["a"], e["b"]], sort_keys=True))
@@ -324,7 +349,7 @@ def run(tier):
         x.assumptions = ["the type's own == / partial_cmp exist only for the HashSet tombstone backend; the roaring and fst "
                          "backends are compared through their revealed contents"]
         x.samples.append({"kind": "tombstone-lattice case", "events": [e for e in next(
-            c for c in _split_cases(events) if len(c) > 1 and c[1]["e"] == ("law" if p == "C01" else "ord") and c[1]["a"]["tomb"])]})
+            c for c in _split_cases(events) if len(c) > 1 and c[1]["e"] == {"C01": "law", "C04": "from"}.get(p, "ord") and c[1]["a"]["tomb"])]})
     out = {"C05": res}
     out.update(extra)
     return out
